@@ -10,6 +10,7 @@ grammar is allowed (`Any`, `Set`, `Dict[int, _]`, arbitrary `Literal`s included)
 import Jap.Core.Adapt
 import Jap.Gen.AdaptTables
 import Jap.Lemmas.AdaptIdem
+import Jap.Lemmas.AdaptSer
 namespace Jap.Props.C10
 open Jap.Adapt
 
@@ -37,6 +38,24 @@ theorem C10_validate (O : Oracle) (t : Ty) (v w : Val) (hg : good t = true)
     (h : adapt O false .none t v = .ok w) : accepts O t w = true := by
   simp [accepts, idem O t v w hg h]
 
+/-- restricted and registered types are leaves of the grammar: `PositiveInt`-like (`rnum`), `timedelta`-like (`reg`) -/
+example : good (.list (.tuple [.rnum .int 0, .reg 3, .union [.none, .str]])) = true := by rfl
+
+/-- a restricted number given as text is converted once and then fixed; a registered value passes by the
+    `is_value_of_type` early-out -/
+example :
+    let O : Oracle := { yaml := fun s => some (.str s), loadAny := fun s => some (.str s), bigFlt := fun _ => .none,
+                        intOf := fun _ => .none,
+                        numStr := fun _ s => if s = "3" then some (.int 3) else .none,
+                        rnumOk := fun _ v => match v with | .int i => decide (i > 0) | _ => false,
+                        regDeser := fun k v => match v with | .str s => some (.obj k s) | _ => .none }
+    adapt O false .none (.tuple [.rnum .int 0, .reg 3]) (.list [.str "3", .str "1:00:00"])
+      = .ok (.tuple [.int 3, .obj 3 "1:00:00"]) ∧
+    adapt O false .none (.tuple [.rnum .int 0, .reg 3]) (.tuple [.int 3, .obj 3 "1:00:00"])
+      = .ok (.tuple [.int 3, .obj 3 "1:00:00"]) ∧
+    adapt O false .none (.rnum .int 0) (.int (-5)) = .error .value := by
+  exact ⟨rfl, rfl, rfl⟩
+
 /-- the hypothesis covers every construct of the grammar, at any depth, outside Union members … -/
 example : good (.dict .int (.set (.tuple [.any, .literal [.int 1, .bool true], .union [.int, .float, .str, .none]]))) = true := by rfl
 
@@ -46,7 +65,8 @@ example : good (.union [.list (.union [.int, .enum 0 ["a"]]), .dict .str (.tuple
 
 /-- a non-trivial instance: text → int, int → float, list → tuple, name → member, all fixed by the second pass -/
 example :
-    let O : Oracle := ⟨fun s => if s = "1" then some (.int 1) else some (.str s), fun s => some (.str s), fun _ => some "?", fun _ => .none⟩
+    let O : Oracle := { yaml := fun s => if s = "1" then some (.int 1) else some (.str s), loadAny := fun s => some (.str s),
+                        bigFlt := fun _ => some "?", intOf := fun _ => .none }
     let t : Ty := .list (.union [.tuple [.float, .enum 0 ["red"]], .int, .str])
     adapt O false .none t (.list [.list [.str "1", .str "red"], .str "1", .str "x"])
       = .ok (.list [.tuple [.flt "1.0", .enum 0 "red"], .int 1, .str "x"]) ∧
@@ -120,5 +140,80 @@ theorem C10_ser_union_enum_swallows :
 /-- and a tuple that a later member would have written as a list stays a tuple -/
 theorem C10_ser_union_enum_tuple :
     ser O0 (.union [.enum 0 ["red"], .tupleVar .int]) (.tuple [.int 1]) = .ok (.tuple [.int 1]) := by rfl
+
+
+/-! ### serialise, then parse again (the L1 theorem of C01, `C01_ser_adapt`, on the adapter model)
+
+`rt false t`: leaves, Literal, Enum, List, Tuple (both kinds), Dict[str, _] at any depth, and Unions whose
+members are Enum-free and satisfy `unionCond` (no member changes a value when serialising, or at most one
+member is not scalar-like).  Outside: Any, Set, Dict[int, _] (not proved; for Any see the witness below), and
+the Union serialisation family of row 5f (Enum as a Union member: witness below). -/
+
+/-- **C10_ser_adapt_roundtrip** (= `C01_ser_adapt`): every value the adapter returns is accepted by the
+    serialiser, and adapting what the serialiser wrote gives the value back — for every loader -/
+theorem C10_ser_adapt_roundtrip (O : Oracle) (t : Ty) (v w : Val) (hg : good t = true) (hr : rt false t = true)
+    (h : adapt O false .none t v = .ok w) :
+    ∃ z, ser O t w = .ok z ∧ adapt O false .none t z = .ok w := by
+  obtain ⟨z, h1, h2, _⟩ := ser_rt O t false w hr (idem O t v w hg h)
+  exact ⟨z, h1, h2⟩
+
+/-- **C10_ser_idem**: serialising a serialised value changes nothing -/
+theorem C10_ser_idem (O : Oracle) (t : Ty) (v w : Val) (hg : good t = true) (hr : rt false t = true)
+    (h : adapt O false .none t v = .ok w) :
+    ∃ z, ser O t w = .ok z ∧ ser O t z = .ok z := by
+  obtain ⟨z, h1, _, _, _, h5⟩ := ser_rt O t false w hr (idem O t v w hg h)
+  exact ⟨z, h1, h5⟩
+
+/-- on types without Enum / Tuple (`serId`) the serialiser is the identity on results -/
+theorem C10_ser_identity (O : Oracle) (t : Ty) (v w : Val) (hg : good t = true) (hr : rt false t = true)
+    (hs : serId t = true) (h : adapt O false .none t v = .ok w) : ser O t w = .ok w := by
+  obtain ⟨z, h1, _, h3, _⟩ := ser_rt O t false w hr (idem O t v w hg h)
+  have := h3 hs; subst this; exact h1
+
+/-- the hypotheses hold for, e.g., `Dict[str, Union[None, str, Tuple[Color, List[Tuple[int, ...]]]]]` -/
+example : good (.dict .str (.union [.none, .str, .tuple [.float, .list (.tupleVar .int)]])) = true ∧
+    rt false (.dict .str (.union [.none, .str, .tuple [.float, .list (.tupleVar .int)]])) = true ∧
+    rt false (.list (.tuple [.enum 0 ["red"], .literal [.int 1]])) = true := by
+  refine ⟨rfl, rfl, rfl⟩
+
+/-- registered types: serialise-then-adapt is exactly the codec law of the type (C20 proves the laws of the
+    built-in codecs); restricted types are covered by `C10_ser_adapt_roundtrip` outside Unions -/
+theorem C10_ser_reg_roundtrip (O : Oracle) (k : Nat) (r : String) (p : Val)
+    (hs : O.regSer k (.obj k r) = some p) (hp : ∀ k' r', p ≠ .obj k' r')
+    (law : O.regDeser k p = some (.obj k r)) :
+    ser O (.reg k) (.obj k r) = .ok p ∧ adapt O false .none (.reg k) p = .ok (.obj k r) :=
+  reg_roundtrip O k r p hs hp law
+
+/-- row 5f with a restricted type: `Union[PositiveInt, float]`, value `0.5` — the serializer of the first member is
+    `int`, it takes the float and writes `0` -/
+theorem C10_ser_union_rnum_corrupts :
+    let O : Oracle := { yaml := fun s => some (.str s), loadAny := fun s => some (.str s), bigFlt := fun _ => .none,
+                        intOf := fun _ => .none, rnumOk := fun _ v => match v with | .int i => decide (i > 0) | _ => false,
+                        baseOf := fun b v => match b, v with | .int, .flt "0.5" => some (.int 0) | _, _ => .none }
+    adapt O false .none (.union [.rnum .int 0, .float]) (.flt "0.5") = .ok (.flt "0.5") ∧
+    ser O (.union [.rnum .int 0, .float]) (.flt "0.5") = .ok (.int 0) := by
+  exact ⟨rfl, rfl⟩
+
+def O2 : Oracle where
+  yaml s := if s = "on" then some (.bool true) else some (.str s)
+  loadAny s := some (.str s)
+  bigFlt _ := some "?"
+  intOf _ := .none
+
+/-- where it fails (row 5f, finding C10-union-serialisation): an Enum member of a Union is written as its
+    name, which an earlier member claims on the way back — `Union[bool, Mode]`, `Mode.on` -/
+theorem C10_ser_roundtrip_fails_enum_union :
+    let t : Ty := .union [.bool, .enum 1 ["on", "null", "x1"]]
+    adapt O2 false .none t (.enum 1 "on") = .ok (.enum 1 "on") ∧
+    ser O2 t (.enum 1 "on") = .ok (.str "on") ∧
+    adapt O2 false .none t (.str "on") = .ok (.bool true) := by
+  exact ⟨rfl, rfl, rfl⟩
+
+/-- and for Any: an Enum member is written as its name and read back as text -/
+theorem C10_ser_roundtrip_fails_any :
+    adapt O2 false .none .any (.enum 0 "red") = .ok (.enum 0 "red") ∧
+    ser O2 .any (.enum 0 "red") = .ok (.str "red") ∧
+    adapt O2 false .none .any (.str "red") = .ok (.str "red") := by
+  exact ⟨rfl, rfl, rfl⟩
 
 end Jap.Props.C10
